@@ -30,7 +30,8 @@ impl std::fmt::Display for NewestDependencyDate {
 
 impl NewestDependencyDate {
   pub fn matches(&self, date: chrono::DateTime<chrono::Utc>) -> bool {
-    date < self.0
+    // a version published exactly at the cutoff is not newer than it
+    date <= self.0
   }
 }
 
